@@ -76,12 +76,24 @@ def scenarios(ctx):
         ("unreadable-then-ok", {"cfg/10.yaml": "<dir>", "cfg/20.yaml": v}, ["cfg/*.yaml"]),
         ("bad-shape-then-ok", {"cfg/10.yaml": "services: {a: {constructor: NewA, scope: bogus}}\n", "cfg/20.yaml": v}, ["cfg/*.yaml"]),
         ("broken-first-pattern", {"cfg/10.yaml": "services: [1, 2\n", "cfg/20.yaml": v}, ["cfg/10.yaml", "cfg/20.yaml"]),
+        # ONE error whose message spans several lines (yaml.TypeError lists its lines): still one entry of the numbered list
+        ("multi-line-error", {"cfg/a.yaml": "services: \"none\"\nparameters: 5\n"}, ["cfg/a.yaml"]),
+        ("multi-line-error-2", {"cfg/a.yaml": "services: {a: {arguments: 1, calls: 2, tags: 3}}\n"}, ["cfg/a.yaml"]),
+        ("two-multi-line-errors", {"cfg/a.yaml": "services: \"none\"\nparameters: 5\n", "cfg/b.yaml": "meta: [1]\nservices: 7\n"}, ["cfg/a.yaml", "cfg/b.yaml"]),
     ]
     for name, files, pats in faults:
         for pre in (["present", "absent"] if ctx.quick else pres):
             for fl in ({}, {"quiet": True}):
                 out.append({"name": "%s|%s|%s" % (name, ",".join(sorted(fl)) or "-", pre), "files": files, "patterns": pats,
                             "out": "out/gen.go", "pre": pre, "flags": fl})
+    # the standard output rejects every write (full device) or is closed: whatever the command does about printing, it exits 0
+    # exactly when it wrote the complete output, and a failing run leaves the -o path alone
+    for so in ("/dev/full", "closed"):
+        for name, cfg in (("valid", cfgs["valid"]), ("missing-param", cfgs["missing-param"]), ("cycle", cfgs["cycle"])):
+            for pre in ("present", "absent"):
+                for fl in ({}, {"quiet": True}):
+                    out.append({"name": "%s|%s|%s|stdout=%s" % (name, ",".join(sorted(fl)) or "-", pre, so), "files": {"cfg/a.yaml": gen.yaml_doc(cfg)},
+                                "patterns": ["cfg/a.yaml"], "out": "out/gen.go", "pre": pre, "flags": fl, "stdout": so})
     return out
 
 
@@ -90,7 +102,7 @@ def judge(sc, r):
     c = r["cli"]
     v = []
     name = sc["name"]
-    if c["exit"] not in (0, 1):
+    if c["exit"] not in (0, 1) and not sc.get("stdout"):
         v.append(("exit-not-0-or-1", "exit status %r (stderr %r)" % (c["exit"], c["stderr"][-300:])))
     wrote = c["after"] != c["before"]
     if c["exit"] == 0 and not (wrote or (c["before"].startswith("file:") and c["text"] is None and False)):
@@ -105,7 +117,9 @@ def judge(sc, r):
     quiet = sc["flags"].get("quiet")
     if quiet and c["stdout"] != "":
         v.append(("quiet-prints", "--quiet printed %r" % c["stdout"][:200]))
-    if c["exit"] != 0 and not quiet:
+    if sc.get("stdout") and quiet and name.startswith("valid|") and c["exit"] != 0:
+        v.append(("quiet-depends-on-stdout", "--quiet prints nothing, yet the run fails when the standard output is unusable: exit %r" % c["exit"]))
+    if c["exit"] != 0 and not quiet and not sc.get("stdout"):
         m = re.search(r"^(.*END·*\[⨉\] \((\d+) errors?\))\nErrors:\n((?:.|\n)*)\Z", c["stdout"], re.M)
         if not m:
             v.append(("no-error-list", "failing run does not end with the failing step's END line and a numbered list: %r" % c["stdout"][-300:]))
@@ -136,6 +150,7 @@ def run(ctx, scs=None):
         dist["quiet"] += bool(sc["flags"].get("quiet"))
         dist["pre_present"] += sc.get("pre") in ("present", "present-long")
         dist["write_fault"] += sc.get("pre") in ("dir", "parent-missing")
+        dist["stdout_fault"] = dist.get("stdout_fault", 0) + bool(sc.get("stdout"))
         seen.add(sc["name"].split("|")[0] + "|" + sc.get("pre", ""))
         for sig, what in judge(sc, r):
             violations.append({"sig": sig, "what": what, "scenario": sc, "observed": {k: c[k] for k in ("exit", "stdout", "before", "after")}})
@@ -150,7 +165,7 @@ def run(ctx, scs=None):
                 corr_fail.append({"op": "run:" + d[0], "scenario": sc, "impl": d[1], "model": d[2]})
     # --quiet: same exit and file effect as the non-quiet twin
     for sc in scs:
-        if sc["flags"].get("quiet") and len(sc["flags"]) == 1:
+        if sc["flags"].get("quiet") and len(sc["flags"]) == 1 and not sc.get("stdout"):
             twin = sc["name"].replace("|quiet|", "|-|")
             if twin in byname:
                 a, b = byname[sc["name"]]["cli"], byname[twin]["cli"]
